@@ -176,7 +176,7 @@ PATCHFN = ['apply_patch', 'decode_patch_operation', 'detach_path', 'decode_point
 for opc, nm in ((1, 'add'), (2, 'remove'), (3, 'replace'), (4, 'move'), (5, 'copy'), (6, 'test'), (0, 'invalid')):
     QM(('C16',), 'patchunit.%s' % nm, 'harness/patch_unit.c', defs=['-DOPC=%d' % opc], unwind=7, link=['cJSON.c'], stub=['get_item_from_pointer', 'compare_json'], stub_lib='cJSON_Utils.c',
        unwindset=ML(8, 80) + ['cJSON_Delete:1', 'cJSON_Delete.0:4', 'strcmp.0:8', 'strlen.0:7', 'vf_memcpy.0:66', 'strncmp.0:7', 'strrchr.0:7', 'strcpy.0:8', 'get_object_item.0:5', 'get_object_item.1:5'], cost=20, functions=PATCHFN, timeout=1500)
-QM(('C16', 'C18', 'C19'), 'cmpjson.K2', 'harness/cmpjson.c', defs=['-DK=2'], unwind=4, link=['cJSON.c'], stub=['compare_json'], stub_lib='cJSON_Utils.c', unwindset=ML(5, 60) + ['sort_list:1', 'strcmp.0:3', 'check_wf.0:4', 'check_wf.1:4', 'check_wf.2:4', 'build.0:4'],
+QM(('C16', 'C17', 'C18', 'C19'), 'cmpjson.K2', 'harness/cmpjson.c', defs=['-DK=2'], unwind=4, link=['cJSON.c'], stub=['compare_json'], stub_lib='cJSON_Utils.c', unwindset=ML(5, 60) + ['sort_list:1', 'strcmp.0:3', 'check_wf.0:4', 'check_wf.1:4', 'check_wf.2:4', 'build.0:4'],
    cost=30, functions=['compare_json', 'sort_object', 'sort_list', 'compare_strings', 'compare_double'], timeout=1500)
 QM(('C16',), 'decodeptr.L5', 'harness/decode_ptr.c', defs=['-DL=5'], unwind=8, link=['cJSON.c'], unwindset=ML(8, 20) + ['strcmp.0:8'], cost=3, functions=['decode_pointer_inplace'])
 
@@ -200,3 +200,8 @@ for K in (2, 3):
 
 # ------------------------------------------------------------------ C14 hooks table
 QM(('C14',), 'hooks.table', 'harness/hooks.c', unwind=4, unwindset=ML(4, 30) + ['cJSON_Delete:1', 'cJSON_Delete.0:2', 'vf_memcpy.0:66', 'strlen.0:4'], cost=3, functions=['cJSON_InitHooks', 'cJSON_malloc', 'cJSON_free', 'cJSON_CreateString', 'cJSON_Delete'])
+QM(('C17', 'C14'), 'compose', 'harness/compose_unit.c', unwind=6, link=['cJSON.c'],
+   unwindset=ML(6, 60) + ['strcmp.0:12', 'strlen.0:12', 'vf_memcpy.0:66', 'vf_sprintf.0:8', 'vf_sprintf.1:12', 'vf_sprintf.2:8', 'vf_sprintf.3:8', 'encode_string_as_pointer.0:4', 'pointer_encoded_length.0:4', 'cJSON_Delete:1', 'cJSON_Delete.0:3'],
+   cost=10, witnesses=['end', 'composed'], functions=['compose_patch', 'cJSONUtils_AddPatchToArray', 'encode_string_as_pointer', 'pointer_encoded_length', 'cJSON_CreateObject', 'cJSON_CreateString', 'cJSON_AddItemToObject', 'cJSON_AddItemToArray'], timeout=1200)
+QM(('C16', 'C17', 'C18'), 'cmpjson.number', 'harness/cmpjson.c', defs=['-DK=1', '-DNUMMODE'], unwind=3, link=['cJSON.c'], stub=['compare_json'], stub_lib='cJSON_Utils.c', unwindset=ML(4, 40), cost=10, witnesses=['number'],
+   functions=['compare_json', 'compare_double'], timeout=900)
